@@ -11,8 +11,8 @@ import subprocess, os
 from vlib import runner
 ID = "C02"
 MODULE = "PotasscoVerif.Props.C02"
-EXTRA_MODULES = ["PotasscoVerif.Props.C02sem", "PotasscoVerif.Lemmas.AspEnum", "PotasscoVerif.Props.C02x", "PotasscoVerif.Lemmas.ConvertExt", "PotasscoVerif.Props.C02m", "PotasscoVerif.Lemmas.ConvertSteps", "PotasscoVerif.Lemmas.ConvertStepsExt"]
-THEOREMS = ["PotasscoVerif.C02.C02_stable_models", "PotasscoVerif.C02.C02_equivalence", "PotasscoVerif.C02.C02_cost", "PotasscoVerif.C02.C02_compute_false",
+EXTRA_MODULES = ["PotasscoVerif.Props.C02o", "PotasscoVerif.Props.C02sem", "PotasscoVerif.Lemmas.AspEnum", "PotasscoVerif.Props.C02x", "PotasscoVerif.Lemmas.ConvertExt", "PotasscoVerif.Props.C02m", "PotasscoVerif.Lemmas.ConvertSteps", "PotasscoVerif.Lemmas.ConvertStepsExt"]
+THEOREMS = ["PotasscoVerif.C02.C02_steps_outputs", "PotasscoVerif.C02.C02_steps_equivalence", "PotasscoVerif.C02.C02_stable_models", "PotasscoVerif.C02.C02_equivalence", "PotasscoVerif.C02.C02_cost", "PotasscoVerif.C02.C02_compute_false",
             "PotasscoVerif.Asp.translation_stable", "PotasscoVerif.Asp.translation_stable_back", "PotasscoVerif.Asp.stableB_iff", "PotasscoVerif.Asp.stableModels_complete", "PotasscoVerif.Asp.stableModels_sound",
             "PotasscoVerif.C02.C02_map_injective", "PotasscoVerif.C02.C02_map_stable", "PotasscoVerif.C02.C02_aux_fresh", "PotasscoVerif.C02.convert_steps",
             "PotasscoVerif.C02.C02_minimize_flip", "PotasscoVerif.C02.C02_minimize_sorted", "PotasscoVerif.C02.flushMinimize_order",
@@ -23,7 +23,7 @@ THEOREMS = ["PotasscoVerif.C02.C02_stable_models", "PotasscoVerif.C02.C02_equiva
 PARTIAL = {"several steps with external directives, extension OFF": "proved for several steps: C02_steps_stable_models (no external directives, extension on or off) and C02_steps_stable_models_ext (ANY external "
            "directives, extension on: the directives of all steps read together — an external on an atom no rule of any step defines, the last directive over all steps counts — against the external calls emitted "
            "over all steps). Without the extension the externals of each step are compiled into rules at the end of that step and cannot be taken back in a later step: what such a program means over several "
-           "steps is not a property of the converter; there the check compares model == implementation and the atom map only; shown names and costs are proved per step"}
+           "steps is not a property of the converter; there the check compares model == implementation and the atom map only. Shown names are proved over all steps (C02_steps_equivalence, C02_steps_outputs), costs per step"}
 BSIZES = (4096,)
 LPCONVERT = True
 RULE = ("programs of 1..8 directives over 2..6 atoms: disjunctive/choice heads incl. empty, normal and weight bodies (bounds < 0, 0, reachable, unreachable; weights 0/1/mixed), "
@@ -175,7 +175,8 @@ def check_steps(c, emitted_words, amap):
             if s[0] == "R": orig["rules"].append((s[1], s[2], ("n", s[3])))
             elif s[0] == "S": orig["rules"].append((s[1], s[2], ("s", s[3], [tuple(x) for x in s[4]])))
             elif s[0] == "X": orig["externals"][s[1]] = s[2]         # the last directive over all steps counts (extension on: C02_steps_stable_models_ext)
-    conv = parse_words([w for w in emitted_words if w[0] in "RSAX"])
+            elif s[0] == "O": orig["outputs"].append((progs.hexs(bytes(s[1]) if not isinstance(s[1], str) else bytes.fromhex(s[1])), s[2]))
+    conv = parse_words([w for w in emitted_words if w[0] in "RSAXO"])
     oa = sorted(asp_sem.atoms_of(orig)); ca = sorted(asp_sem.atoms_of(conv))
     if len(oa) > 6 or len(ca) > 8: return None
     if len(set(amap.values())) != len(amap): return ("C02:atom-map", "the atom map is not injective after several steps", {"map": amap})
@@ -187,6 +188,12 @@ def check_steps(c, emitted_words, amap):
     if proj_o != proj_c:
         return ("C02:stable-models", "several steps: the stable models of the rules emitted so far (restricted to mapped atoms) are not those of the rules given so far",
                 {"orig": [sorted(I) for I in sm_o][:8], "conv": [sorted(J) for J in sm_c][:8], "map": img})
+    # C02_steps_equivalence / C02_steps_outputs: under corresponding answer sets the output directives of ALL steps show the same names
+    inv = {v: k for k, v in img.items()}
+    for J in sm_c:
+        I = frozenset(inv[x] for x in J if x in inv)
+        if asp_sem.shown(orig, I) != asp_sem.shown(conv, J):
+            return ("C02:shown-symbols", "several steps: a stable model shows different symbol names", {"orig": asp_sem.shown(orig, I), "conv": asp_sem.shown(conv, J), "model": sorted(I)})
     return "ok"
 
 def evaluate(ctx, cases):
